@@ -319,6 +319,19 @@ impl Binary {
     #[verifier::external_body]
     pub fn from(v: Vec<u8>) -> (r: Binary) ensures r.0 == v { unimplemented!() }
 }
+/// `&b[..]` (Binary derefs to [u8])
+impl core::ops::Index<core::ops::RangeFull> for Binary {
+    type Output = [u8];
+    #[verifier::external_body]
+    fn index(&self, i: core::ops::RangeFull) -> (r: &[u8])
+        ensures r@ == self.0@
+    { unimplemented!() }
+}
+impl vstd::std_specs::core::IndexSpecImpl<core::ops::RangeFull> for Binary {
+    open spec fn index_req(&self, i: &core::ops::RangeFull) -> bool { true }
+}
+pub uninterp spec fn base64_str(b: Seq<u8>) -> Seq<char>;
+impl DisplayStr for Binary { open spec fn dview(&self) -> Seq<char> { base64_str(self.0@) } }
 #[derive(Debug)]
 pub enum BankMsg {
     Send { to_address: String, amount: Vec<Coin> },
